@@ -80,6 +80,7 @@ const Fault* find_fault(rtio::Call c, int fd) {
 }
 
 void obs_result(rtio::Call c, int fd, ssize_t r, int err) {
+  if (c != rtio::C_READV && c != rtio::C_WRITEV) return;
   auto it = g.traced.find(fd);
   if (it == g.traced.end()) return;
   if (r >= 0) rt::obs("%s %zd", kCall[c], r);
